@@ -1,4 +1,3 @@
-//verif:race
 // C07 — persistence never stalls (restated as bounded progress, see DESIGN.md).
 //
 // Engine: persistent local store (lib/asm) whose two syncer loops run as real,
@@ -10,17 +9,20 @@
 // "drains": it repeatedly waits until all goroutines are parked (goroutine
 // dumps) and advances the clock to the next pending timer. Then, with no timer
 // pending and everything parked, the monitors decide:
-//   (i)   every acknowledged upload still in the list is covered by the last
-//         state file (block listed, write offset beyond the object), and a
-//         data sync that started after its acknowledgement completed;
-//   (ii)  no popped block awaits a state write; after a rotation without
-//         injected failures a state write appears WITHOUT any clock advance;
-//   (iii) fire times of consecutive epoch timers are >= the minimum epoch
-//         interval apart;
-//   (iv)  k injected failures are followed by exactly k retries, each after one
-//         retry interval;
-//   (v)   wake-up channel closed <=> work pending (introspection, under the lock);
-//   (vi)  no panic / no deadlock in any worker.
+//
+//	(i)   every acknowledged upload still in the list is covered by the last
+//	      state file (block listed, write offset beyond the object), and a
+//	      data sync that started after its acknowledgement completed;
+//	(ii)  no popped block awaits a state write; after a rotation without
+//	      injected failures a state write appears WITHOUT any clock advance;
+//	(iii) fire times of consecutive epoch timers are >= the minimum epoch
+//	      interval apart;
+//	(iv)  k injected failures are followed by exactly k retries, each after one
+//	      retry interval;
+//	(v)   wake-up channel closed <=> work pending (introspection, under the lock);
+//	(vi)  no panic / no deadlock in any worker.
+//
+//verif:race
 package main
 
 import (
@@ -36,6 +38,7 @@ import (
 	"verif/lib/asm"
 	"verif/lib/gen"
 	"verif/lib/run"
+	"verif/lib/sim"
 )
 
 const (
@@ -102,12 +105,47 @@ func schedule(ctx context.Context, w *run.Worker, c *run.Case) {
 	cfg.Factory = "cas"
 	cfg.Label = "c07"
 	cfg.MinEpoch, cfg.Retry = minEpoch, retry
-	s, err := asm.Build(cfg, asm.NewMedia(cfg))
+	media := asm.NewMedia(cfg)
+	restarted := false
+	firstID := uint64(0)
+	if r.Chance(1, 3) {
+		// A previous lifetime: a few small uploads, a commit, a graceful
+		// shutdown. The schedule proper then runs on a store RESTORED from
+		// that state, so that its first uploads go into a restored block and
+		// a restored epoch list (the obligations are the same: persistence
+		// must pick them up).
+		s0, err := asm.Build(cfg, media)
+		if err != nil {
+			panic(err)
+		}
+		e0 := &env{c: c, w: w, s: s0, cfg: cfg, r: r, ctx: ctx, closed: map[string]bool{}}
+		s0.StartSyncers()
+		for i := r.Range(1, 5); i > 0; i-- {
+			e0.put(r.Range(1, int(cfg.BlockBytes())/4))
+		}
+		e0.checkpoint("previous lifetime")
+		s0.Shutdown()
+		e0.shutdown = true
+		e0.checkpoint("previous lifetime, shutdown")
+		j := media.J
+		k := j.Len()
+		media = asm.NewMediaFrom(cfg,
+			sim.ImageAt(j, "blocks", media.BlocksInit, k, true, cfg.Sector, sim.KeepAll),
+			sim.ImageAt(j, "index", media.IndexInit, k, false, 0, sim.KeepAll),
+			sim.DirImageAt(j, media.DirInit, k, sim.DirChoice{VolatilePrefix: 1 << 20, UnsyncedData: 1}))
+		restarted = true
+		firstID = e0.id // contents stay unique across the two lifetimes
+		w.Count("restarted_lifetimes", 1)
+	}
+	s, err := asm.Build(cfg, media)
 	if err != nil {
 		panic(err)
 	}
-	e := &env{c: c, w: w, s: s, cfg: cfg, r: r, ctx: ctx, closed: map[string]bool{}}
-	c.Desc("%v", cfg)
+	e := &env{c: c, w: w, s: s, cfg: cfg, r: r, ctx: ctx, closed: map[string]bool{}, id: firstID}
+	if restarted {
+		e.sig.WriteString("X")
+	}
+	c.Desc("%v restarted=%v", cfg, restarted)
 	if c.Index == 0 {
 		w.Sample(map[string]any{"config": cfg.String()})
 	}
@@ -352,7 +390,11 @@ func (e *env) checkpoint(where string) {
 	_ = lbm
 	if len(e.acks) > 0 {
 		if len(written) == 0 {
-			e.c.Violation("periodicSyncer:no-state-file-after-acknowledged-upload", "%s: uploads were acknowledged and the system is quiescent, but no state file was ever written", where)
+			var tailEv []string
+			for _, ev := range evs {
+				tailEv = append(tailEv, ev.Kind)
+			}
+			e.c.Violation("periodicSyncer:no-state-file-after-acknowledged-upload", "%s: uploads were acknowledged and the system is quiescent, but no state file was ever written; snapshot %+v; last events %v; error log %v", where, snap, lastN(tailEv, 25), lastN(s.ErrLog.Messages(), 3))
 		} else {
 			st := written[len(written)-1]
 			listed := map[int64]int64{} // device offset -> write offset
